@@ -262,6 +262,16 @@ def run(ctx):
     # 2. system runs: oracle + step replay
     cases = system_cases(ctx, 120 if ctx.quick else 1500, thorough=not ctx.quick)
     sysrun.run_cases(kvh, cases)
+    # scale: groups of several thousand members (two sub-families of > 4096 sequences each), uninstrumented build
+    from props import c10
+    big = []
+    for k in range(1 if ctx.quick else 3):
+        b = c10.scale_case(ctx.rng)
+        b.want_ev = False
+        b.fmt = ["fasta", "clu", "msf"][k % 3]
+        big.append(b)
+    sysrun.run_cases(C.build_harness("plain"), big, timeout=1800)
+    cases += big
     model_lines, expected, where = [], [], []
     fails = []
     for c in cases:
